@@ -950,18 +950,19 @@ def _c14_run(body, env, out, fuel):
                 except _Cont:
                     continue
         elif st[0] == 'while':
-            c = 0
+            # the test helper keeps its count in a file: a loop that was left by `break` goes on counting where it stopped when it is entered again
+            cnt = env.setdefault('__cnt', {})
             while True:
-                c += 1
+                c = cnt.get(st[1], 0) + 1
                 if c > st[2]:
+                    cnt.pop(st[1], None)
                     out.append('w:%s:end' % st[1])
                     break
+                cnt[st[1]] = c
                 out.append('w:%s:%d' % (st[1], c))
                 try:
                     _c14_run(st[3], env, out, fuel)
                 except _Brk:
-                    # the counter file stays: take the loop out of the re-entry game by never generating a re-entered while with break (see generator use)
-                    env.setdefault('__dirty', set()).add(st[1])
                     break
                 except _Cont:
                     continue
@@ -1060,11 +1061,6 @@ def c14(tier, seed):
         guard += 1
         ids = [0]
         body = _c14_gen(rnd, rnd.randint(1, 4), None, ids, [rnd.randint(4, 16)])
-        # a while loop left by break keeps its counter: exclude programs where such a loop could be entered again (only top-level whiles may hold a break)
-        if _c14_has_break_in_while(body):
-            nested = any(st[0] != 'while' and _c14_has_break_in_while([st]) for st in body)
-            if nested:
-                continue
         style = {'w': rnd.choice([0, 2, 4]), 'then': rnd.random() < 0.3, 'do': rnd.random() < 0.3, 'tb': rnd.choice(['', '', ' ', '  ', '\t']), 'elif': rnd.choice(['else if', 'else if', 'else  if', 'else \t if'])}
         exp = []
         try:
